@@ -70,11 +70,12 @@ type HelloSpec struct {
 }
 
 type RespSpec struct {
-	// good | bad_secret | replay | signed_other | wrong_type | timeout | abort | closed | garbage | literal
+	// good | bad_secret | replay | signed_other | alt | wrong_type | timeout | abort | closed | garbage | literal
 	Kind      string  `json:"kind"`
 	User      string  `json:"user,omitempty"`       // whose secret the client holds (default: the claimed authid)
 	WrongCode int     `json:"wrong_code,omitempty"` // wrong_type: message sent instead of AUTHENTICATE
 	Literal   *string `json:"literal,omitempty"`    // literal / garbage: the signature text
+	Alt       string  `json:"alt,omitempty"`        // alt: a correctly keyed response over something else than this challenge
 }
 
 type Scenario struct {
